@@ -20,7 +20,7 @@ from vlib.common import cbool, clist, cnat, cz
 
 ID = "C08"
 PROPERTIES_V = "theories/Properties/C08.v"
-CASE_IMPORTS = "From GV Require Import Prelude.Base Model.Codec Model.RefMap."
+CASE_IMPORTS = "From GV Require Import Prelude.Base Model.Codec Model.RefMap Model.JsonMeta."
 ALLOWED_AXIOMS: list = []
 # The model follows the code with fixes/C08-*.patch applied.  C08_MODEL_VER=Old ties the pre-repair transcription (the subject of
 # the *_old_refuted theorems) to an unpatched tree instead.
@@ -31,16 +31,19 @@ REFUTED = [
     "C08_refmap_old_refuted (pre-repair _validate_key_value: keys 1 and 2^32+1 share a row key in the '<u4' column, label of 1 replaced; repaired by fixes/C08-value-map-key-wrap.patch)",
     "C08_text_too_long_old_refuted (pre-repair TextData.values setter accepts more entries than the geometry has; repaired by fixes/C08-text-too-long.patch)",
     "C08_text_bytes_old_refuted (pre-repair TextData.values stores an 'S' array that is not UTF-8 and the entity can no longer be read; repaired by fixes/C08-text-invalid-utf8-bytes.patch)",
-    "C08_blob_named_Data_refuted (FilenameData whose file is called 'Data' reads back None: open finding file-named-Data)",
+    "C08_blob_named_Data_refuted / C08_blob_reserved_names (FilenameData whose file is called 'Data' reads back None, called 'Type' makes the file unloadable: open findings file-named-Data, file-named-Type; consequences of the two-dataset node model)",
+    "C08_meta_full_refuted / C08_meta_unmapped_positions (metadata: a UUID two dictionaries down or in a list comes back as its braced text: open finding metadata-uuid-not-restored); C08_meta_lookalikes (exactly the strings/ints uuid.UUID accepts come back as UUID: open finding metadata-uuid-lookalike)",
 ]
 PARTIAL = [
     "C08_float_roundtrip: the documented exception (a float exactly equal to FLOAT_NDV) is excluded by hypothesis; C08_float_ndv_exception shows what happens to it",
-    "comments / metadata: JSON layer (json.dumps / json.loads, dict_mapper) is exercised by the oracle only, not modelled",
-    "C08_blob_roundtrip excludes the file name 'Data' (open finding)",
+    "C08_meta_roundtrip: side condition meta_ok (identifiers only in the metadata dict or a dict directly below; no uuid look-alike str/int in those slots) - exactly the complement of the two open metadata findings; the JSON text layer (json.dumps / json.loads on None/bool/int/float/str/list/str-keyed dict) is trusted, not modelled",
+    "C08_blob_roundtrip: every file name except 'Data' and 'Type' (open findings)",
+    "uuid.UUID leniency of int(text, 16) (surrounding blanks, sign, 0x prefix, non-ASCII digits) is not in parse_uuid; the generator avoids such strings",
 ]
 TRUSTED = [
     "Coq 8.16.1 kernel + vm_compute (correspondence evaluation); no axioms (Print Assumptions: closed)",
-    "hand-written models coq/theories/Model/Codec.v (format_values/format_length/format_type per class, write_data_values casts, fetch_values, TextData, FilenameData) and Model/RefMap.v (ReferenceValueMap, write_value_map, fetch_value_map); tied to the code by running both on the same generated inputs",
+    "hand-written models coq/theories/Model/Codec.v (format_values/format_length/format_type per class, write_data_values casts, fetch_values, TextData), Model/RefMap.v (ReferenceValueMap, write_value_map, fetch_value_map, run_ref) and Model/JsonMeta.v (dict_mapper/as_str_if_uuid, fetch_metadata/str2uuid, uuid.UUID text, CommentsData, the FilenameData node as two datasets); tied to the code by running both on the same generated inputs",
+    "CPython json.dumps / json.loads are inverse on JSON-native values (the driver parses the stored text with json.loads and the model is compared with that value and with the API value after re-open)",
     "numpy semantics the model transcribes and the correspondence exercises: value-based promotion of np.ones(n, dtype) * nan_value, astype(int32) two's-complement truncation for integers and INT_MIN for out-of-range floats (x86-64), exact widening float16/32 -> float64, np.modf, structured '<u4' key column truncation",
     "h5py dataset round trip (dtype and contents read back by h5py are what was handed to create_dataset); HDF5 vlen-string rules (UTF-8, no embedded NUL)",
     "the UTF-8 codec: the model uses its own RFC 3629 encoder/decoder (proved inverse on scalar values: C08_utf8_roundtrip) and the correspondence compares its bytes with CPython's on every text case",
@@ -62,7 +65,10 @@ RULE = (
     "arrays; map: dicts with valid, negative, >= 2^32, non-int keys, non-str labels, key 0 with and without 'Unknown', "
     "boolean maps, followed by 0-4 assignments; blob: byte strings incl. NULs and all 256 values; non-trivial = a no-data "
     "gap, a boundary magnitude (|v| >= 2^31-1 or sentinel neighbour), a non-ASCII string, a refused input, or a map "
-    "with an assignment"
+    "with an assignment; map cases also store 1-5 referenced values inside and outside the map's keys; json: 1-3 comments (Unicode, "
+    "uuid-shaped text) or a metadata dict nested up to 3 deep with None/bool/ints (32-digit ones)/floats/Unicode strings/near-"
+    "look-alikes/identifiers/empty dict and list; 22% of the metadata cases are spiced with look-alikes, deep identifiers, "
+    "identifiers in lists, bytes; blob names include Data and Type"
 )
 LEVEL_TEXT = (
     "Proved in Coq for all inputs of the model: float arrays without the sentinel read back token-for-token with NaN stored "
@@ -71,8 +77,8 @@ LEVEL_TEXT = (
     "stored as int8 0/1 and anything else is refused; object/str/complex/bool-to-float inputs are refused; text round-trips "
     "under the codec law, which is itself proved for the model's RFC 3629 codec; ReferenceValueMap keeps key 0 = 'Unknown' "
     "over every constructor/__setitem__ sequence and survives the file with all labels.  The five pre-repair defects are "
-    "proved as refutations of the old transcription (tied to the unpatched tree by C08_MODEL_VER=Old) and repaired by fixes/C08-*.patch; a file called 'Data' is an open "
-    "finding.  Tie: correspondence of model and code on generated arrays of every numeric dtype, strings of all planes, "
+    "proved as refutations of the old transcription (tied to the unpatched tree by C08_MODEL_VER=Old) and repaired by fixes/C08-*.patch.  Metadata dictionaries round-trip for all nested values under meta_ok, with the look-alike set stated as an iff and the braced uuid text proved to parse back for every identifier; comments round-trip for all record lists; the FilenameData node is a two-dataset model from which read-back is proved for every name but Data/Type; referenced values outside the map's keys are returned as they are.  Four open findings (file-named-Data, file-named-Type, metadata-uuid-lookalike, metadata-uuid-not-restored).  "
+    "Tie: correspondence of model and code on generated arrays of every numeric dtype, strings of all planes, "
     "maps and blobs (API value live, raw dataset, API value after re-open)."
 )
 TECHNIQUE = "Coq proofs over a hand model of the codecs + differential correspondence + independent oracle"
@@ -394,7 +400,9 @@ def gen_map(rng):
     for _ in range(rng.weighted([(0, 35), (1, 25), (2, 20), (3, 12), (4, 8)])):
         k = gen_key(rng)
         ops.append([k, gen_lab(rng, k)])
-    return {"kind": "map", "d": d, "ops": ops}
+    # the referenced values themselves: keys of the map, keys that are not in it, negative, the no-data code
+    vals = [rng.choice([0, 1, 2, 3, 5, 6, 7, 99, -1, -5, 2**31 - 1, -(2**31), 65536]) for _ in range(rng.range(1, 5))]
+    return {"kind": "map", "d": d, "ops": ops, "vals": vals}
 
 
 def gen_blob(rng):
@@ -407,32 +415,78 @@ def gen_blob(rng):
         b = list(range(256))
     else:
         b = [rng.choice([0, 0, 1, 10, 13, 65, 127, 128, 255, rng.below(256)]) for _ in range(rng.range(1, 12))]
-    name = rng.weighted([("f.dat", 60), ("Data", 12), ("\u00e9\U0001F600.bin", 14), ("a b.tiff", 14)])
+    name = rng.weighted([("f.dat", 55), ("Data", 10), ("Type", 7), ("\u00e9\U0001F600.bin", 14), ("a b.tiff", 14)])
     return {"kind": "blob", "bytes": b, "name": cps(name)}
+
+
+UUID_LOOKALIKES = ["{00000000-0000-0000-0000-000000000005}", "00000000000000000000000000000005", "ABCDEF00-0000-0000-0000-0000000000ff",
+                   "urn:uuid:12345678-1234-5678-1234-567812345678", "{}{}12345678123456781234567812345678", "uuid:{0-0-0-0-0000000000000000000000000000}"]
+NEAR_LOOKALIKES = ["{00000000-0000-0000-0000-00000000000}", "0000000000000000000000000000000g", "{00000000-0000-0000-0000-000000000005} ",
+                   "urn:uuid", "{}", "--------------------------------", "0000_0000000000000000000000000005"]
+
+
+def gen_meta_val(rng, depth, strs, spice):
+    """depth = how many dict levels lie above (1 = value of the metadata dict itself)"""
+    r = rng.below(100)
+    if r < 8:
+        return None
+    if r < 14:
+        return rng.chance(50)
+    if r < 24:
+        return rng.choice([0, 1, -1, 2**31, 2**63, 2**70, -(2**31) - 1, 10**31, 10**32])
+    if r < 32:
+        return {"$f": tok(rng.choice([0.5, 0.1, 1e-320, 1.7976931348623157e308, FLOAT_NDV, -0.0, 2.0**53 + 2, 5e-324, 1e16, math.inf, math.nan]))}
+    if r < 52:
+        return {"$s": cps(rng.choice(strs))}
+    if r < 58:
+        return {"$s": cps(rng.choice(NEAR_LOOKALIKES))}
+    if r < 66:
+        # an identifier where the reader maps it back (depth 1 and 2) ...
+        if depth <= 2 or spice:
+            return {"$u": rng.choice([0, 5, 2**64 + 7, 2**128 - 1, 0x123456781234567812345678ABCDEF01])}
+        return {"$s": cps("deep")}
+    if r < 76 or depth >= 3:
+        kind = rng.below(10)
+        if kind < 2:
+            return []
+        items = [gen_meta_atom(rng, strs, spice) for _ in range(rng.range(1, 3))]
+        if spice and rng.chance(30):
+            items.append([{"$u": 9}] if rng.chance(50) else {"$d": [[cps("k"), {"$u": 9}]]})
+        return items
+    if rng.chance(15):
+        return {"$d": []}
+    return {"$d": [[cps(rng.choice(strs[:5] + S_BMP[:2] + S_ASTRAL[:1])) + [48 + i], gen_meta_val(rng, depth + 1, strs, spice)] for i in range(rng.range(1, 3))]}
+
+
+def gen_meta_atom(rng, strs, spice):
+    r = rng.below(10)
+    if r < 2:
+        return None
+    if r < 4:
+        return rng.choice([3, -7, 2**70])
+    if r < 8:
+        return {"$s": cps(rng.choice(strs + NEAR_LOOKALIKES))}
+    if spice:
+        return {"$u": 5} if rng.chance(50) else {"$s": cps(rng.choice(UUID_LOOKALIKES))}
+    return {"$f": tok(0.25)}
 
 
 def gen_json(rng):
     strs = S_ASCII + S_BMP + S_ASTRAL + S_COMB + ["a\x00b"]
-    if rng.chance(50):
-        return {"kind": "json", "what": "comment", "text": cps(rng.choice(strs)), "author": cps(rng.choice(strs[:4] + S_BMP[:2]))}
-
-    def val(depth):
-        r = rng.below(9)
-        if r == 0:
-            return None
-        if r == 1:
-            return rng.chance(50)
-        if r == 2:
-            return rng.choice([0, 1, -1, 2**31, 2**63, 2**70, -(2**31) - 1])
-        if r == 3:
-            return {"$f": tok(rng.choice([0.5, 0.1, 1e-320, 1.7976931348623157e308, FLOAT_NDV, -0.0, 2.0**53 + 2, 5e-324]))}
-        if r in (4, 5) or depth <= 0:
-            return {"$s": cps(rng.choice(strs))}
-        if r == 6:
-            return [val(depth - 1) for _ in range(rng.range(0, 3))]
-        return {"$d": [[cps(rng.choice(strs[:5] + S_BMP[:2] + S_ASTRAL[:1])) + [48 + i], val(depth - 1)] for i in range(rng.range(0, 3))]}
-
-    return {"kind": "json", "what": "meta", "value": {"$d": [[cps("k%d" % i), val(2)] for i in range(rng.range(1, 3))]}}
+    if rng.chance(35):
+        return {"kind": "json", "what": "comment",
+                "comments": [[cps(rng.choice(strs + UUID_LOOKALIKES[:2])), cps(rng.choice(strs[:4] + S_BMP[:2]))] for _ in range(rng.range(1, 3))]}
+    # spice: look-alikes where they are mapped, identifiers where they are not, values json refuses (the recorded findings)
+    spice = rng.chance(22)
+    d = []
+    for i in range(rng.weighted([(0, 6), (1, 34), (2, 34), (3, 26)])):
+        v = gen_meta_val(rng, 1, strs, spice)
+        if spice and rng.chance(35):
+            v = rng.choice([{"$s": cps(rng.choice(UUID_LOOKALIKES))}, 12345678123456781234567812345678, -(10**31) - 5,
+                            {"$d": [[cps("in"), {"$s": cps(rng.choice(UUID_LOOKALIKES))}]]},
+                            {"$d": [[cps("a"), {"$d": [[cps("b"), {"$u": 77}]]}]]}, [{"$u": 5}], {"$bad": 1}])
+        d.append([cps("k%d" % i) + (cps(rng.choice(S_BMP[:3])) if rng.chance(20) else []), v])
+    return {"kind": "json", "what": "meta", "value": {"$d": d}, "spice": spice}
 
 
 FIXED = [
@@ -447,6 +501,10 @@ FIXED = [
     {"kind": "map", "d": [[0, cps("Unknown")], [2**32, cps("big")]], "ops": []},
     {"kind": "text", "form": "arrU", "assoc": "VERTEX", "n": 2, "val": [cps("a"), cps("b"), cps("c")]},
     {"kind": "blob", "bytes": [120], "name": cps("Data")},
+    {"kind": "blob", "bytes": [120, 0], "name": cps("Type")},
+    {"kind": "json", "what": "meta", "spice": True, "value": {"$d": [[cps("a"), {"$d": [[cps("b"), {"$d": [[cps("c"), {"$u": 5}]]}]]}]]}},
+    {"kind": "json", "what": "meta", "spice": True, "value": {"$d": [[cps("a"), {"$s": cps("00000000000000000000000000000005")}]]}},
+    {"kind": "json", "what": "meta", "spice": False, "value": {"$d": [[cps("a"), {"$u": 5}], [cps("b"), {"$d": [[cps("c"), {"$u": 2**128 - 1}], [cps("d"), []], [cps("e"), {"$d": []}]]}], [cps("f"), None]]}},
 ]
 
 
@@ -461,7 +519,7 @@ def generate(rng, tier):
         cases.append(gen_map(rng))
     for _ in range(40 * k):
         cases.append(gen_blob(rng))
-    for _ in range(40 * k):
+    for _ in range(90 * k):
         cases.append(gen_json(rng))
     return cases
 
@@ -652,8 +710,11 @@ def _drive_map(case, path):
     with Workspace.create(path) as ws:
         pts = Points.create(ws, vertices=np.zeros((2, 3)))
         try:
-            dat = pts.add_data({"d": {"values": np.array([0, 1], dtype="int32"), "association": "VERTEX", "type": "REFERENCED",
-                                      "value_map": rvm}})
+            vals = case.get("vals") or [0, 1]
+            pts2 = Points.create(ws, vertices=np.zeros((len(vals), 3)))
+            dat = pts2.add_data({"d": {"values": np.array(vals, dtype="int32"), "association": "VERTEX", "type": "REFERENCED",
+                                       "value_map": rvm}})
+            out["vlive"] = _num_tokens(dat.values)
         except Exception as e:  # noqa: BLE001
             out["write_err"] = _err(e)
             return out
@@ -663,10 +724,12 @@ def _drive_map(case, path):
         t = h["GEOSCIENCE"]["Types"]["Data types"]["{%s}" % tuid]
         rows = t["Value map"][()].tolist() if "Value map" in t else None
         out["rows"] = None if rows is None else [[int(k), list(v if isinstance(v, bytes) else v.encode("utf-8"))] for k, v in rows]
+        out["vraw"] = _num_tokens(h["GEOSCIENCE"]["Data"]["{%s}" % uid]["Data"][()])
     try:
         with Workspace(path, mode="r") as ws:
             dat = ws.get_entity(uid)[0]
             out["re"] = _map_obs(dat.value_map.map)
+            out["vre"] = _num_tokens(dat.values)
     except Exception as e:  # noqa: BLE001
         out["read_err"] = _err(e)
     return out
@@ -693,23 +756,43 @@ def _drive_blob(case, path):
         live = list(fd.values) if isinstance(fd.values, bytes) else None
     with h5py.File(path, "r") as h:
         g = h["GEOSCIENCE"]["Data"]["{%s}" % uid]
-        members = sorted(k for k in g if k != "Type")
-        rawname = g["Data"][()]
-        rawblob = list(g[name][()].tobytes()) if name in g else None
-    with Workspace(path, mode="r") as ws:
-        fd = ws.get_entity(uid)[0]
-        v = fd.values
-        fn = fd.file_name
-    return {"live": live, "members": [cps(m) for m in members], "rawblob": rawblob, "re": None if v is None else list(v),
-            "re_name": None if fn is None else cps(fn)}
+        members = []
+        for k in sorted(g):
+            obj = g[k]
+            if isinstance(obj, h5py.Group):
+                members.append([cps(k), "type", None])
+            elif obj.dtype.kind == "O":
+                v = obj[()][0]
+                members.append([cps(k), "name", cps(v.decode("utf-8") if isinstance(v, bytes) else str(v))])
+            elif obj.dtype.kind == "V":
+                members.append([cps(k), "blob", list(obj[()].tobytes())])
+            else:
+                members.append([cps(k), str(obj.dtype), None])
+    out = {"live": live, "members": members}
+    try:
+        with Workspace(path, mode="r") as ws:
+            fd = ws.get_entity(uid)[0]
+            v = fd.values
+            fn = fd.file_name
+        out["re"] = None if v is None else list(v)
+        out["re_name"] = None if fn is None else cps(fn)
+    except Exception as e:  # noqa: BLE001
+        out["read_err"] = _err(e)
+    return out
 
 
 def _py_json(v):
+    import uuid
+
     if isinstance(v, dict):
         if "$s" in v:
             return _s(v["$s"])
         if "$f" in v:
             return untok(v["$f"])
+        if "$u" in v:
+            return uuid.UUID(int=v["$u"])
+        if "$bad" in v:
+            return b"bytes"
         return {_s(k): _py_json(x) for k, x in v["$d"]}
     if isinstance(v, list):
         return [_py_json(x) for x in v]
@@ -717,9 +800,11 @@ def _py_json(v):
 
 
 def _canon_json(v):
-    """python value -> JSON-safe canonical form with exact floats and code-point strings"""
+    """python value -> JSON-safe canonical form with exact floats, code-point strings, insertion order kept"""
+    import uuid
+
     if isinstance(v, dict):
-        return {"$d": sorted([[cps(str(k)), _canon_json(x)] for k, x in v.items()])}
+        return {"$d": [[cps(k) if isinstance(k, str) else {"$key": repr(k)}, _canon_json(x)] for k, x in v.items()]}
     if isinstance(v, (list, tuple)):
         return [_canon_json(x) for x in v]
     if isinstance(v, bool) or v is None or isinstance(v, int):
@@ -728,6 +813,10 @@ def _canon_json(v):
         return {"$f": tok(v)}
     if isinstance(v, str):
         return {"$s": cps(v)}
+    if isinstance(v, uuid.UUID):
+        return {"$u": v.int}
+    if isinstance(v, bytes):
+        return {"$bad": 1}
     return {"$other": type(v).__name__}
 
 
@@ -740,7 +829,8 @@ def _drive_json(case, path):
         pts = Points.create(ws, vertices=np.zeros((2, 3)))
         try:
             if case["what"] == "comment":
-                pts.add_comment(_s(case["text"]), _s(case["author"]))
+                for text, author in case["comments"]:
+                    pts.add_comment(_s(text), _s(author))
                 uid = pts.comments.uid
                 live = _canon_json(pts.comments.values)
             else:
@@ -749,13 +839,20 @@ def _drive_json(case, path):
                 live = _canon_json(pts.metadata)
         except Exception as e:  # noqa: BLE001
             return {"store_err": _err(e), "msg": str(e)[:160]}
+    import h5py
+
+    with h5py.File(path, "r") as h:
+        ds = h["GEOSCIENCE"]["Data" if case["what"] == "comment" else "Objects"]["{%s}" % uid]["Data" if case["what"] == "comment" else "Metadata"]
+        text = ds[()][0]
+        text = text.decode("utf-8") if isinstance(text, bytes) else str(text)
+        raw = {"ascii": all(ord(c) < 128 for c in text), "value": _canon_json(json.loads(text))}
     try:
         with Workspace(path, mode="r") as ws:
             ent = ws.get_entity(uid)[0]
             re = _canon_json(ent.values if case["what"] == "comment" else ent.metadata)
     except Exception as e:  # noqa: BLE001
-        return {"live": live, "read_err": _err(e)}
-    return {"live": live, "re": re}
+        return {"live": live, "raw": raw, "read_err": _err(e)}
+    return {"live": live, "raw": raw, "re": re}
 
 
 def drive_one(case, work):
@@ -928,7 +1025,14 @@ def _map_term(case, obs):
     re = _crmap(obs["re"])
     if re is None:
         return "false"
-    return "agree_map %s (MODone %s %s %s %s)" % (head, m, es, rows, re)
+    t = "agree_map %s (MODone %s %s %s %s)" % (head, m, es, rows, re)
+    if case.get("vals"):
+        live, raw, vre = _vals_term(obs.get("vlive")), _raw_term({**obs.get("vraw", {}), "shape": [len(case["vals"])]}), _vals_term(obs.get("vre"))
+        if live is None or raw is None or vre is None:
+            return "false"
+        t = "agree_ref %s AVertex %s (AInt I32 %s) (MODone %s %s %s %s) (ODone %s %s %s)" % (
+            head, cnat(len(case["vals"])), clist(cz(v) for v in case["vals"]), m, es, rows, re, live, raw, vre)
+    return t
 
 
 def _blob_term(case, obs):
@@ -939,8 +1043,89 @@ def _blob_term(case, obs):
         return "false" if e is None else "agree_blob %s %s (Err %s)" % (cbool(is_data), x, e)
     if case["bytes"] is None or obs["live"] != case["bytes"]:
         return "false"
-    re = "None" if obs["re"] is None else "(Some %s)" % cbytes(obs["re"])
-    return "agree_blob %s %s (Ok %s)" % (cbool(is_data), x, re)
+    ms = []
+    for k, kind, v in obs["members"]:
+        if kind == "type":
+            ms.append("(%s, MType)" % cbytes(k))
+        elif kind == "name":
+            ms.append("(%s, MName %s)" % (cbytes(k), cbytes(v)))
+        elif kind == "blob":
+            ms.append("(%s, MBlob %s)" % (cbytes(k), cbytes(v)))
+        else:
+            return "false"
+    if "read_err" in obs:
+        e = cerr(obs["read_err"])
+        o = None if e is None else "(Err %s)" % e
+    elif obs["re"] is None and obs["re_name"] is None:
+        o = "(Ok None)"
+    elif obs["re"] is None or obs["re_name"] is None:
+        o = None
+    else:
+        o = "(Ok (Some (%s, %s)))" % (cbytes(obs["re_name"]), cbytes(obs["re"]))
+    if o is None:
+        return "false"
+    return "agree_node %s %s %s %s" % (cbytes(case["name"]), x, clist(ms), o)
+
+
+def _cjv(v):
+    """canonical JSON-safe form -> Coq term of type jv (None when not expressible)"""
+    if v is None:
+        return "JNull"
+    if isinstance(v, bool):
+        return "(JBool %s)" % cbool(v)
+    if isinstance(v, int):
+        return "(JInt %s)" % cz(v)
+    if isinstance(v, list):
+        items = [_cjv(x) for x in v]
+        return None if any(i is None for i in items) else "(JList %s)" % clist(items)
+    if "$s" in v:
+        return "(JStr %s)" % cbytes(v["$s"])
+    if "$f" in v:
+        return "(JFlt %d%%N)" % fbits(untok(v["$f"]))
+    if "$u" in v:
+        return "(JUuid %d%%N)" % v["$u"]
+    if "$bad" in v:
+        return "JBad"
+    if "$d" in v:
+        items = []
+        for k, x in v["$d"]:
+            t = _cjv(x)
+            if t is None or not isinstance(k, list):
+                return None
+            items.append("(%s, %s)" % (cbytes(k), t))
+        return "(JDict %s)" % clist(items)
+    return None
+
+
+def _json_term(case, obs):
+    if case["what"] == "meta":
+        m = _cjv(case["value"])
+        if m is None:
+            return None
+        if "store_err" in obs:
+            e = cerr(obs["store_err"])
+            return "false" if e is None else "agree_meta %s None (Err %s)" % (m, e)
+        if obs["live"] != case["value"] or not obs["raw"]["ascii"]:
+            return "false"
+        w = _cjv(obs["raw"]["value"])
+        if "read_err" in obs:
+            e = cerr(obs["read_err"])
+            return "false" if e is None or w is None else "agree_meta %s (Some %s) (Err %s)" % (m, w, e)
+        r = _cjv(obs["re"])
+        return "false" if r is None or w is None else "agree_meta %s (Some %s) (Ok %s)" % (m, w, r)
+    # comments: the records the API built (author, date, text) are the model's input
+    if "store_err" in obs:
+        return "false"
+    l = _cjv(obs["live"])
+    w = _cjv(obs["raw"]["value"])
+    if l is None or w is None or not l.startswith("(JList ") or not obs["raw"]["ascii"]:
+        return "false"
+    l = l[len("(JList "):-1]
+    if "read_err" in obs:
+        e = cerr(obs["read_err"])
+        return "false" if e is None else "agree_comments %s (Some %s) (Err %s)" % (l, w, e)
+    r = _cjv(obs["re"])
+    return "false" if r is None else "agree_comments %s (Some %s) (Ok %s)" % (l, w, r)
 
 
 def case_term(case, obs):
@@ -953,7 +1138,7 @@ def case_term(case, obs):
         return _map_term(case, obs)
     if k == "blob":
         return _blob_term(case, obs)
-    return None  # json: oracle only
+    return _json_term(case, obs)
 
 
 def model_term(case):
@@ -965,6 +1150,10 @@ def model_term(case):
                                                  _arr_term(case))
     if k == "map":
         return "run_map utf8_enc utf8_dec %s %s %s" % (MODEL_VER, _cdict(case["d"]), _cdict(case["ops"]))
+    if k == "json" and case["what"] == "meta" and _cjv(case["value"]) is not None:
+        return "(meta_written %s, meta_trip %s)" % (_cjv(case["value"]), _cjv(case["value"]))
+    if k == "blob" and case["bytes"]:
+        return "(node_write node0 %s %s, node_read (node_write node0 %s %s))" % ((cbytes(case["name"]), cbytes(case["bytes"])) * 2)
     return None
 
 
@@ -1148,6 +1337,13 @@ def _oracle_map(case, obs):
         fails.append({"key": "reopened-map-differs", "what": f"map after re-open {re} expected {exp}"})
     if exp != boolmap and re.get(0) != cps("Unknown"):
         fails.append({"key": "key0-not-unknown", "what": f"key 0 reads {re.get(0)}"})
+    if case.get("vals"):
+        # the referenced values are what was written, whether or not the map has a label for them
+        want = {"t": "int32", "v": list(case["vals"])}
+        for tag in ("vlive", "vraw", "vre"):
+            if obs.get(tag) != want:
+                fails.append({"key": "referenced-values-differ", "what": f"{tag} {obs.get(tag)} expected {want['v']} (map keys {sorted(exp)})"})
+                break
     return fails
 
 
@@ -1157,39 +1353,107 @@ def _oracle_blob(case, obs):
     if case["bytes"] is None:
         return [{"key": "unsupported-type-accepted", "what": "str accepted as file content"}]
     fails = []
+    name = _s(case["name"])
     if obs["live"] != case["bytes"]:
         fails.append({"key": "live-value-differs", "what": "blob right after the write differs"})
+    kinds = {_s(k): (kind, v) for k, kind, v in obs["members"]}
+    if "read_err" in obs:
+        key = "file-named-Type" if name == "Type" and kinds.get("Type", ("", None))[0] == "blob" else "unreadable-after-write"
+        return fails + [{"key": key, "what": f"file {name!r}: re-open raised {obs['read_err']}; node members {sorted(kinds)}"}]
     if obs["re"] != case["bytes"] or obs["re_name"] != case["name"]:
-        key = "file-named-Data" if _s(case["name"]) == "Data" and obs["re"] is None and obs["members"] == [cps("Data")] else "reopened-blob-differs"
-        fails.append({"key": key, "what": f"file {_s(case['name'])!r}: content after re-open {obs['re']} / name {obs['re_name']}, written {case['bytes']}"})
-    elif obs["rawblob"] != case["bytes"]:
-        fails.append({"key": "raw-dataset-differs", "what": "opaque dataset differs from the blob"})
+        key = "file-named-Data" if name == "Data" and obs["re"] is None and sorted(kinds) == ["Data", "Type"] and kinds["Data"][0] == "blob" \
+            else "reopened-blob-differs"
+        fails.append({"key": key, "what": f"file {name!r}: content after re-open {obs['re']} / name {obs['re_name']}, written {case['bytes']}"})
+    elif kinds.get(name) != ("blob", case["bytes"]) or kinds.get("Data") != ("name", case["name"]) or kinds.get("Type", ("",))[0] != "type":
+        fails.append({"key": "raw-dataset-differs", "what": f"node {obs['members']}"})
     return fails
+
+
+def _lookalike(v):
+    """does uuid.UUID(str(v)) succeed (CPython's own test, independent of the model)"""
+    import uuid
+
+    if isinstance(v, dict) and "$s" in v:
+        t = _s(v["$s"])
+    elif isinstance(v, int) and not isinstance(v, bool):
+        t = str(v)
+    else:
+        return None
+    try:
+        return uuid.UUID(t).int
+    except ValueError:
+        return None
+
+
+def _predict_meta(v):
+    """what the two recorded metadata findings predict: (value, set of finding keys that applied)"""
+    import uuid
+
+    used = set()
+
+    def braced(u):
+        return {"$s": cps("{" + str(uuid.UUID(int=u)) + "}")}
+
+    def deep(x):  # positions the reader never maps back
+        if isinstance(x, dict) and "$u" in x:
+            used.add("metadata-uuid-not-restored")
+            return braced(x["$u"])
+        if isinstance(x, dict) and "$d" in x:
+            return {"$d": [[k, deep(y)] for k, y in x["$d"]]}
+        if isinstance(x, list):
+            return [deep(y) for y in x]
+        return x
+
+    def slot(x):  # a value the reader passes through str2uuid
+        if isinstance(x, dict) and "$u" in x:
+            return x
+        u = _lookalike(x)
+        if u is not None:
+            used.add("metadata-uuid-lookalike")
+            return {"$u": u}
+        return deep(x)
+
+    out = []
+    for k, x in v["$d"]:
+        if isinstance(x, dict) and "$d" in x:
+            out.append([k, {"$d": [[k2, slot(y)] for k2, y in x["$d"]]}])
+        else:
+            out.append([k, slot(x)])
+    return {"$d": out}, used
 
 
 def _oracle_json(case, obs):
     if "store_err" in obs:
         return []
     if case["what"] == "comment":
-        exp_text, exp_author = case["text"], case["author"]
         for tag in ("live", "re"):
             if tag not in obs:
                 return [{"key": "unreadable-after-write", "what": f"re-open raised {obs.get('read_err')}"}]
             v = obs[tag]
-            ok = isinstance(v, list) and len(v) == 1 and isinstance(v[0], dict) and \
-                dict((_s(k), x) for k, x in v[0]["$d"]).get("Text") == {"$s": exp_text} and \
-                dict((_s(k), x) for k, x in v[0]["$d"]).get("Author") == {"$s": exp_author}
+            ok = isinstance(v, list) and len(v) == len(case["comments"])
+            if ok:
+                for rec, (text, author) in zip(v, case["comments"]):
+                    d = dict((_s(k), x) for k, x in rec["$d"]) if isinstance(rec, dict) and "$d" in rec else {}
+                    ok = ok and [_s(k) for k, _ in rec.get("$d", [])] == ["Author", "Date", "Text"] \
+                        and d.get("Text") == {"$s": text} and d.get("Author") == {"$s": author}
             if not ok:
-                return [{"key": "comment-differs", "what": f"{tag} comment {v}"}]
+                return [{"key": "comment-differs", "what": f"{tag} comments {v}"}]
+        if obs["live"] != obs["re"]:
+            return [{"key": "comment-differs", "what": "comments after re-open differ from the live ones (date?)"}]
         return []
-    exp = _canon_json(_py_json(case["value"]))
-    if "re" not in obs:
-        return [{"key": "unreadable-after-write", "what": f"re-open raised {obs.get('read_err')}"}]
+    exp = case["value"]
     fails = []
     if obs["live"] != exp:
         fails.append({"key": "live-value-differs", "what": f"metadata {obs['live']} expected {exp}"})
+    if "re" not in obs:
+        return fails + [{"key": "unreadable-after-write", "what": f"re-open raised {obs.get('read_err')}"}]
     if obs["re"] != exp:
-        fails.append({"key": "reopened-metadata-differs", "what": f"metadata after re-open {obs['re']} expected {exp}"})
+        pred, used = _predict_meta(exp)
+        if obs["re"] == pred and used:
+            for k in sorted(used):
+                fails.append({"key": k, "what": f"metadata after re-open {json.dumps(obs['re'])[:300]} written {json.dumps(exp)[:300]}"})
+        else:
+            fails.append({"key": "reopened-metadata-differs", "what": f"metadata after re-open {obs['re']} expected {exp}"})
     return fails
 
 
@@ -1228,7 +1492,9 @@ def nontrivial(case, obs):
         return bool(case["ops"]) or any(isinstance(kk, dict) or kk == 0 or kk >= 2**31 for kk, _ in case["d"])
     if k == "blob":
         return 0 in (case["bytes"] or []) or _s(case["name"]) != "f.dat"
-    return True
+    if case["what"] == "meta":
+        return len(json.dumps(case["value"])) > 40
+    return any(any(c > 127 for c in t) for t, _ in case["comments"])
 
 
 def histogram(cases, obs):
@@ -1265,4 +1531,6 @@ def histogram(cases, obs):
             inc(h["map_ops"], str(len(c["ops"])))
         elif k == "blob":
             inc(h["blob_outcome"], out)
+        else:
+            inc(h.setdefault("json_outcome", {}), c["what"] + ("/spiced" if c.get("spice") else "") + ":" + out)
     return h
